@@ -26,7 +26,7 @@ def gen_cases(tier, seed):
         rank = [2, 3, 4][k % 3]
         cases.append({"kind": "bn", "rank": rank, "C": int(rng.integers(1, 4)), "momentum": [0.1, 0.5, 1.0, None, 0.0][int(rng.integers(5))],
                       "affine": bool(rng.integers(2)), "track": bool(rng.random() < 0.75), "dtype": ["float32", "float64"][k % 2],
-                      "eps": float(rng.choice([1e-5, 1e-3])), "n_events": int(rng.integers(5, 31)), "seed": int(rng.integers(2 ** 31))})
+                      "eps": float(rng.choice([1e-5, 1e-3, 0.5])), "n_events": int(rng.integers(5, 31)), "seed": int(rng.integers(2 ** 31))})
     for k in range(6 if tier == "quick" else 60):
         cases.append({"kind": "nested-mode", "seed": int(rng.integers(2 ** 31)), "variant": k})
     for p in (0, 0.1, 0.3, 0.5, 0.9, 1):
@@ -277,6 +277,28 @@ def run_dropout(ns, c):
         if np.any(np.abs(cnt / K - p) > 6 * sdk):
             viol.append(V("dropout:per-position-rate", "some position is dropped with a frequency outside the 6-sigma band around p over repeated calls", p=p,
                           rates=(cnt / K).tolist()))
+    # a drop-rate schedule: `p` is a public attribute (read at every call, as in PyTorch); after reassigning it the layer is a Dropout(p2)
+    if getattr(m, "p", None) == p and not viol:
+        p2 = 0.5 if p not in (0.5,) else 0.2
+        m.p = p2
+        m.train()
+        x2 = T(x.copy(), requires_grad=True)
+        y2 = m(x2)
+        y2.backward(T(g.copy()))
+        d2 = np.asarray(y2.data) == 0
+        counters["p_reassigned_checks"] = 1
+        if abs(float(d2.mean()) - p2) > 6 * math.sqrt(p2 * (1 - p2) / n):
+            viol.append(V("dropout:zero-rate:after-p-reassigned", f"after m.p = {p2} the fraction of zeroed elements is {float(d2.mean()):.5f}", p=p, p2=p2))
+        s2 = ~d2
+        if s2.any():
+            want2 = x.astype(np.float64)[s2] / (1 - p2)
+            err2 = np.abs(np.asarray(y2.data, dtype=np.float64)[s2] - want2) / np.abs(want2)
+            if err2.max() > 4 * np.finfo(dt).eps:
+                viol.append(V("dropout:survivor-scale:after-p-reassigned", f"after m.p = {p2} (constructed with p={p}) survivors are not x/(1-{p2}) "
+                              f"(max rel err {err2.max():.3g})", p=p, p2=p2))
+            gw = np.where(d2, 0.0, g.astype(np.float64) / (1 - p2))
+            if x2.grad is None or not np.allclose(np.asarray(x2.grad.data, dtype=np.float64), gw, rtol=(1e-5 if dt == np.float32 else 1e-7), atol=1e-12):
+                viol.append(V("dropout:gradient-mask:after-p-reassigned", f"after m.p = {p2} the input gradient is not g*mask/(1-{p2})", p=p, p2=p2))
     return {"key": ("dropout", p, c["dtype"], json.dumps(c["shape"])) if 0 < p < 1 else None, "viol": dedup(viol), "counters": counters,
             "cover": {"dropout_p": [str(p)]}}
 
